@@ -670,14 +670,19 @@ def _may_precede(pos, w, u, decl):
     pw, cw, lw = pos[id(w)]
     pu, cu, lu = pos[id(u)]
     pd, cd, ld = pos[id(decl)]
-    if pw < pd and not (set(lw) - set(ld)):
-        return False                      # before the declaration, and not in a loop the declaration is outside of
+    if pw < pd:
+        # textually before the declaration: to run after it and before the use it needs a back edge of a loop around the
+        # write and the use - which (structured code) is around the declaration too, so the declaration runs again first
+        return False
     # in different branches of one conditional: never on the same path
     bw = dict(cw)
     for i_, b_ in cu:
         if i_ in bw and bw[i_] != b_:
             return False
     if pw < pu:
+        if w.get('k') == 'assign' and any(x is u for x in walk(w.get('rhs'))):
+            # the use is the right-hand side of the very assignment that writes: read first, then written
+            return bool((set(lw) & set(lu)) - set(ld))
         return True
     # later in the text: only through a loop that contains both but not the declaration
     return bool((set(lw) & set(lu)) - set(ld))
@@ -801,20 +806,45 @@ def substitute_aliases(f, known_locals=None):
                     key = (v.get('name'), v.get('dl'))
                     is_alias = v.get('isref') and _strip(init).get('k') in ('mem', 'index', 'opcall')
                     base = str(v.get('name', '')).split('@')[0]
-                    is_temp = (not v.get('isref')) and known_locals is not None and base not in known_locals \
+                    i0 = _strip(init)
+                    is_copy = (not v.get('isref')) and isinstance(i0, dict) \
+                        and ((i0.get('k') == 'ref' and i0.get('dk') in ('local', 'parm')) or _is_field_read(i0)) \
+                        and not _is_class_type(v.get('t')) \
+                        and str(v.get('t', '')).replace('const ', '').strip() == str(i0.get('t', '')).replace('const ', '').strip()   # a second name for a variable (no conversion)
+                    is_temp = (not v.get('isref')) and known_locals is not None and (base not in known_locals or is_copy) \
                         and _strip(init).get('k') not in ('initlist', 'construct', 'lambda', 'str') and not _is_class_type(v.get('t'))
                     if is_alias or is_temp:
                         uses = _uses_of(body, key)
                         written = any(_writes_local(x, key) for x in walk(body))
                         # a value temporary is folded back only when it names a sub-expression used once; one that is tested
                         # and then used again carries flow information (guards) that the interval engine keys on the variable
-                        if uses and (is_alias or (not written and len(uses) == 1)):
+                        if uses and (is_alias or (not written and (len(uses) == 1 or is_copy or _small_arith(init)))):
                             pos = pos or _positions(body)
                             if _stable_until_uses(s, v, init, body, uses, pos, alias=is_alias):
                                 _replace_refs(body, key, init)
                                 ok = True
                                 changed = True
                                 pos = None
+                        elif uses and is_temp and not written and _store_forward(blk, s, v, init, body, uses):
+                            ok = True
+                            changed = True
+                            pos = None
+                if not ok and isinstance(init, dict) and not v.get('static') and not v.get('isref') and not v.get('bindings') \
+                        and _closure_value(init) is not None:
+                    # a named closure (`const auto irq = [this] { ... };`) that is only handed on (copied into slots), never
+                    # called here: every use is the closure expression itself
+                    key = (v.get('name'), v.get('dl'))
+                    uses = _uses_of(body, key)
+                    written = any(_writes_local(x, key) for x in walk(body))
+                    called = any(x.get('k') == 'opcall' and x.get('op') == '()' and x.get('args') and _is_ref(x['args'][0], key) for x in walk(body)) \
+                        or any(x.get('k') == 'call' and _is_ref(x.get('obj'), key) for x in walk(body))
+                    if uses and not written and not called:
+                        pos = pos or _positions(body)
+                        if all(_closure_input_stable(s, v, part, body, uses, pos) for part in _closure_value(init)):
+                            _replace_refs(body, key, init)
+                            ok = True
+                            changed = True
+                            pos = None
                 if not ok:
                     keep.append(v)
             if keep:
@@ -822,6 +852,105 @@ def substitute_aliases(f, known_locals=None):
                 new.append(s)
         blk['body'] = new
     return changed
+
+
+def _small_arith(e):
+    """a small arithmetic expression over parameters, locals and constants only (`cycles - 1`): a name for it carries no more
+       flow information than the expression itself"""
+    n = 0
+    for x in walk(e):
+        n += 1
+        k = x.get('k')
+        if k == 'ref':
+            if x.get('dk') not in ('parm', 'local', 'binding', 'staticmember', 'global', 'enumerator', 'enum'):
+                return False
+        elif k == 'bin':
+            if x.get('op') not in ('+', '-', '*', '<<', '>>', '&', '|'):
+                return False
+        elif k not in ('cast', 'int', 'paren'):
+            return False
+    return 2 <= n <= 9
+
+
+def _is_field_read(e):
+    """a plain member read `this->a.b` / `param.a` (no index, no call): guards and writes on it are tracked by field"""
+    n = 0
+    while isinstance(e, dict) and e.get('k') == 'mem':
+        e = _strip(e.get('base'))
+        n += 1
+    return n > 0 and isinstance(e, dict) and (e.get('k') == 'this' or (e.get('k') == 'ref' and e.get('dk') in ('parm', 'local')))
+
+
+def _store_forward(blk, decl_stmt, v, init, body, uses):
+    """`const T t = E;  L = t;  ... t ...`  is  `L = E;  ... L ...`  when L has the type of t and nothing L depends on is
+       written between the store and the later uses (the value just stored is the value of t)"""
+    stmts = blk.get('body', [])
+    i = next((j for j, x in enumerate(stmts) if x is decl_stmt), None)
+    if i is None or i + 1 >= len(stmts) or len(decl_stmt.get('vars', [])) != 1:
+        return False
+    st = stmts[i + 1]
+    key = (v.get('name'), v.get('dl'))
+    if not (st.get('k') == 'assign' and st.get('op') == '=' and _is_ref(st.get('rhs'), key) and is_pure(st.get('lhs'))):
+        return False
+    L = st['lhs']
+    if str(L.get('t', '')).replace('const ', '').strip() != str(v.get('t', '')).replace('const ', '').strip():
+        return False
+    if any(x.get('k') == 'ref' and (x.get('name'), x.get('dl')) == key for x in walk(L)):
+        return False
+    later = [u for u in uses if not any(x is u for x in walk(st))]
+    if len(later) != len(uses) - 1:
+        return False
+    pos = _positions(body)
+    if any(pos[id(u)][0] < pos[id(st)][0] for u in later if id(u) in pos):
+        return False
+    for w in _input_writes(L, body):
+        if w is st or id(w) not in pos:
+            continue
+        for u in later:
+            if id(u) in pos and _may_precede(pos, w, u, st):
+                return False
+    st['rhs'] = init
+    for u in later:
+        keep = {'l': u.get('l')}
+        u.clear()
+        u.update(copy.deepcopy(L))
+        u.update(keep)
+    return True
+
+
+def _closure_value(init):
+    """the inputs of a closure value (a lambda expression, or the std::bind the facts normal form made of a forwarding
+       lambda): list of captured / bound expressions; None when `init` is not a closure value"""
+    e = init
+    while isinstance(e, dict) and (e.get('k') == 'cast' or (e.get('k') == 'construct' and e.get('copymove') and len(e.get('args', [])) == 1)):
+        e = e.get('e') if e.get('k') == 'cast' else e['args'][0]
+    if not isinstance(e, dict):
+        return None
+    if e.get('k') == 'lambda':
+        return [c.get('init') for c in e.get('caps', []) if isinstance(c.get('init'), dict)]
+    if e.get('k') == 'call' and e.get('fn') == 'std::bind<from-lambda>':
+        return list(e.get('args', []))
+    return None
+
+
+def _closure_input_stable(decl_stmt, v, part, body, uses, pos):
+    from .astq import const_value
+    p = _strip(part)
+    if not isinstance(p, dict):
+        return False
+    if p.get('k') in ('this', 'placeholder') or const_value(p) is not None or (p.get('k') == 'ref' and p.get('dk') in ('func', 'staticmember', 'global')):
+        return True
+    if p.get('k') == 'un' and p.get('op') == '&':
+        inner = _strip(p.get('e'))
+        if isinstance(inner, dict) and inner.get('k') == 'ref' and inner.get('dk') == 'func':
+            return True
+        return is_pure(inner) and _stable_until_uses(decl_stmt, v, inner, body, uses, pos, alias=True)
+    if p.get('k') == 'ref' and p.get('dk') in ('local', 'parm', 'binding'):
+        return _stable_until_uses(decl_stmt, v, p, body, uses, pos, alias=False)
+    if p.get('k') in ('mem', 'opcall', 'index') and is_pure(p):
+        # captured by reference: which object it denotes must not change
+        return _stable_until_uses(decl_stmt, v, p, body, uses, pos, alias=True)
+    return False
 
 
 def _is_class_type(t):
@@ -885,6 +1014,96 @@ def while_to_for(f):
         n['inc'] = last
         n['body'] = {'k': 'block', 'l': b.get('l') if isinstance(b, dict) else n.get('l'), 'body': inner}
         changed = True
+    return changed
+
+
+def _is_ref(e, key):
+    e = _strip(e)
+    return isinstance(e, dict) and e.get('k') == 'ref' and e.get('dk') == 'local' and (e.get('name'), e.get('dl')) == key
+
+
+def _is_lit(e, v):
+    from .astq import const_value
+    e = _strip(e)
+    return isinstance(e, dict) and e.get('k') != 'ref' and const_value(e) == v
+
+
+def downcount_loops(f):
+    """`while (v > 0) { --v; B }` (v dead after the loop) is `for (; v-- > 0;) B`, and
+       `for (v = N; v-- > 0;) B` (also `v-- != 0`, bare `v--`; N a non-negative constant, v not written in B) is
+       `for (v = N - 1; v != -1; --v) B`: the same values of v in B, the same value after the loop (modulo 2^n for unsigned)"""
+    from .astq import const_value
+    body = f.get('body')
+    if not isinstance(body, dict):
+        return False
+    changed = False
+    for n in list(walk(body)):
+        if n.get('k') == 'while':
+            stmts = _stmts(n.get('body'))
+            if not stmts:
+                continue
+            first = stmts[0]
+            if not (first.get('k') == 'un' and first.get('op') in ('--', 'post--')):
+                continue
+            tgt = _strip(first.get('e'))
+            if not (isinstance(tgt, dict) and tgt.get('k') == 'ref' and tgt.get('dk') == 'local'):
+                continue
+            key = (tgt.get('name'), tgt.get('dl'))
+            c = _strip(n.get('cond'))
+            ok = _is_ref(c, key)
+            if isinstance(c, dict) and c.get('k') == 'bin':
+                ok = (c.get('op') in ('>', '!=') and _is_ref(c.get('lhs'), key) and _is_lit(c.get('rhs'), 0)) or \
+                     (c.get('op') in ('<', '!=') and _is_ref(c.get('rhs'), key) and _is_lit(c.get('lhs'), 0))
+            if not ok:
+                continue
+            rest = stmts[1:]
+            if any(_writes_local(x, key) for s_ in rest for x in walk(s_)):
+                continue
+            # v must be dead after the loop: every reference is inside the loop
+            inside = {id(x) for x in walk(n)}
+            if any(id(x) not in inside for x in _uses_of(body, key)):
+                continue
+            n['k'] = 'for'
+            n['init'] = None
+            n['inc'] = None
+            n['cond'] = {'l': n.get('l'), 't': 'bool', 'k': 'bin', 'op': '>',
+                         'lhs': {'l': n.get('l'), 't': tgt.get('t'), 'k': 'un', 'op': 'post--', 'e': copy.deepcopy(tgt)},
+                         'rhs': {'l': n.get('l'), 't': 'int', 'k': 'int', 'v': 0}}
+            b = n.get('body')
+            n['body'] = {'k': 'block', 'l': b.get('l') if isinstance(b, dict) else n.get('l'), 'body': rest}
+            changed = True
+        if n.get('k') == 'for' and n.get('inc') is None:
+            c = _strip(n.get('cond'))
+            dec = None
+            if isinstance(c, dict) and c.get('k') == 'un' and c.get('op') == 'post--':
+                dec = c
+            elif isinstance(c, dict) and c.get('k') == 'bin':
+                l_, r_ = _strip(c.get('lhs')), _strip(c.get('rhs'))
+                if c.get('op') in ('>', '!=') and isinstance(l_, dict) and l_.get('k') == 'un' and l_.get('op') == 'post--' and _is_lit(r_, 0):
+                    dec = l_
+                elif c.get('op') in ('<', '!=') and isinstance(r_, dict) and r_.get('k') == 'un' and r_.get('op') == 'post--' and _is_lit(l_, 0):
+                    dec = r_
+            if dec is None:
+                continue
+            tgt = _strip(dec.get('e'))
+            if not (isinstance(tgt, dict) and tgt.get('k') == 'ref' and tgt.get('dk') == 'local'):
+                continue
+            key = (tgt.get('name'), tgt.get('dl'))
+            if any(_writes_local(x, key) for x in walk(n.get('body'))):
+                continue
+            # the single constant initialisation of v (in the loop header or a declaration in front of it)
+            decls = [x for x in walk(body) if x.get('k') == 'var' and (x.get('name'), x.get('dl')) == key and 'init' in x]
+            others = [x for x in walk(body) if _writes_local(x, key) and x is not dec]
+            if len(decls) != 1 or others:
+                continue
+            n0 = const_value(decls[0]['init'])
+            if n0 is None or n0 < 0:
+                continue
+            decls[0]['init'] = {'l': decls[0].get('l'), 't': decls[0].get('t'), 'k': 'int', 'v': n0 - 1}
+            n['cond'] = {'l': n.get('l'), 't': 'bool', 'k': 'bin', 'op': '!=', 'lhs': copy.deepcopy(tgt),
+                         'rhs': {'l': n.get('l'), 't': 'int', 'k': 'int', 'v': -1}}
+            n['inc'] = {'l': n.get('l'), 't': tgt.get('t'), 'k': 'un', 'op': '--', 'e': copy.deepcopy(tgt)}
+            changed = True
     return changed
 
 
@@ -994,6 +1213,193 @@ def index_to_rangefor(f, R=None):
     return changed
 
 
+def iterator_to_rangefor(f):
+    """`for (auto it = C.begin(); it != C.end(); ++it) { ... *it ... it->m ... }` where `it` is only dereferenced and C is not
+       modified in the body is `for (auto& e : C)`"""
+    from .norm import Renderer
+    body = f.get('body')
+    if not isinstance(body, dict):
+        return False
+    changed = False
+    r = None
+    READ_ONLY = ('size', 'begin', 'end', 'cbegin', 'cend', 'at', 'empty', 'front', 'back', 'data')
+
+    def end_points(e, names):
+        e = _strip(e)
+        if isinstance(e, dict) and e.get('k') == 'call' and e.get('name') in names and not e.get('args') and e.get('obj') is not None:
+            return e['obj']
+        if isinstance(e, dict) and e.get('k') == 'call' and str(e.get('fn', '')).startswith(tuple('std::' + x for x in names)) \
+                and len(e.get('args', [])) == 1 and e.get('obj') is None:
+            return e['args'][0]
+        return None
+    for n in list(walk(body)):
+        if n.get('k') != 'for':
+            continue
+        decl = [x for x in walk(n.get('init') or {}) if x.get('k') == 'var']
+        if len(decl) != 1 or 'init' not in decl[0]:
+            continue
+        v = decl[0]
+        key = (v.get('name'), v.get('dl'))
+        cont = end_points(v['init'], ('begin', 'cbegin'))
+        if cont is None or not is_pure(cont):
+            continue
+        r = r or Renderer(None, inline_locals=False)
+        ct = r.r(cont)
+        c = _strip(n.get('cond'))
+        if isinstance(c, dict) and c.get('k') == 'opcall' and c.get('op') == '!=' and len(c.get('args', [])) == 2:
+            a, b = c['args']
+        elif isinstance(c, dict) and c.get('k') == 'bin' and c.get('op') == '!=':
+            a, b = c.get('lhs'), c.get('rhs')
+        else:
+            continue
+        if not _is_ref(a, key):
+            a, b = b, a
+        e_ = end_points(b, ('end', 'cend'))
+        if not _is_ref(a, key) or e_ is None or r.r(e_) != ct:
+            continue
+        inc = _strip(n.get('inc'))
+        it = None
+        if isinstance(inc, dict) and inc.get('k') == 'opcall' and inc.get('op') in ('++', 'post++') and inc.get('args'):
+            it = inc['args'][0]
+        elif isinstance(inc, dict) and inc.get('k') == 'un' and inc.get('op') in ('++', 'post++'):
+            it = inc.get('e')
+        if not _is_ref(it, key):
+            continue
+        ok = True
+        derefs = []        # (node to turn into the element, or mem node whose base becomes the element)
+
+        def scan(x, parent, grand):
+            nonlocal ok
+            if not isinstance(x, dict):
+                return
+            if x.get('k') == 'ref' and x.get('dk') == 'local' and (x.get('name'), x.get('dl')) == key:
+                if isinstance(parent, dict) and parent.get('k') == 'opcall' and parent.get('op') == '*' and len(parent.get('args', [])) == 1:
+                    derefs.append(('elem', parent))
+                elif isinstance(parent, dict) and parent.get('k') == 'un' and parent.get('op') == '*':
+                    derefs.append(('elem', parent))
+                elif isinstance(parent, dict) and parent.get('k') == 'opcall' and parent.get('op') == '->' and isinstance(grand, dict) \
+                        and grand.get('k') == 'mem' and grand.get('arrow'):
+                    derefs.append(('mem', grand))
+                elif isinstance(parent, dict) and parent.get('k') == 'mem' and parent.get('arrow') and _strip(parent.get('base')) is x:
+                    derefs.append(('mem', parent))
+                else:
+                    ok = False
+                return
+            if x.get('k') == 'call' and x.get('obj') is not None and x.get('name') not in READ_ONLY and r.r(x['obj']) == ct:
+                ok = False
+            if x.get('k') == 'lambda':
+                ok = False
+            if x.get('k') == 'cast':
+                scan(x.get('e'), parent, grand)
+                return
+            for ch in children(x):
+                scan(ch, x, parent)
+        scan(n.get('body'), n, None)
+        if not ok or not derefs:
+            continue
+        for p_, node, how in _direct_writes(n.get('body')):
+            if r.r(node.get('lhs') if node.get('k') == 'assign' else node.get('e') or {}) == ct:
+                ok = False
+        if not ok:
+            continue
+        ename = 'elem@%s' % (v.get('dl') or n.get('l'))
+        et = None
+        for how, node in derefs:
+            if how == 'elem':
+                et = et or node.get('t')
+                keep = {'l': node.get('l'), 't': node.get('t')}
+                node.clear()
+                node.update({'k': 'ref', 'name': ename, 'dk': 'local', 'dl': v.get('dl'), 'isref': True})
+                node.update(keep)
+            else:
+                bt = str((node.get('base') or {}).get('t', '')).rstrip('* ').strip()
+                et = et or bt
+                node['base'] = {'k': 'ref', 'name': ename, 'dk': 'local', 'dl': v.get('dl'), 'isref': True, 'l': node.get('l'), 't': bt}
+                node['arrow'] = False
+        n.pop('init', None)
+        n.pop('cond', None)
+        n.pop('inc', None)
+        n['k'] = 'rangefor'
+        n['range'] = cont
+        n['var'] = {'k': 'var', 'l': n.get('l'), 'dl': v.get('dl'), 'name': ename, 't': '%s &' % et, 'isref': True, 'synthetic': True}
+        changed = True
+    return changed
+
+
+def merge_nested_ifs(f):
+    """`if (A) { if (B) S }` with no else on either is `if (A && B) S` (same evaluation order, same short-circuit)"""
+    body = f.get('body')
+    if not isinstance(body, dict):
+        return False
+    changed = False
+    again = True
+    while again:
+        again = False
+        for n in walk(body):
+            if n.get('k') != 'if' or n.get('else') is not None or n.get('init') is not None or n.get('constexpr'):
+                continue
+            inner = n.get('then')
+            while isinstance(inner, dict) and inner.get('k') == 'block' and len(inner.get('body', [])) == 1:
+                inner = inner['body'][0]
+            if not (isinstance(inner, dict) and inner.get('k') == 'if' and inner.get('else') is None and inner.get('init') is None
+                    and not inner.get('constexpr')) or inner is n:
+                continue
+            if any(x.get('k') in ('var', 'decl') for x in walk(inner.get('cond'))) or any(x.get('k') in ('var', 'decl') for x in walk(n.get('cond'))):
+                continue
+            n['cond'] = {'l': n.get('l'), 't': 'bool', 'k': 'bin', 'op': '&&', 'lhs': n['cond'], 'rhs': inner['cond']}
+            n['then'] = inner.get('then')
+            changed = again = True
+            break
+    return changed
+
+
+def cond_init_to_if(f):
+    """`T x = c ? E : K;` with K a constant and E not pure (it fetches, pops, calls) is `T x = K; if (c) x = E;`
+       (and `c ? K : E` the same with !c): the form in which a conditional side effect is a conditional statement"""
+    from .astq import const_value
+    body = f.get('body')
+    if not isinstance(body, dict):
+        return False
+    changed = False
+    for blk in [n for n in walk(body) if n.get('k') == 'block']:
+        new = []
+        for s_ in blk.get('body', []):
+            new.append(s_)
+            if s_.get('k') != 'decl' or len(s_.get('vars', [])) != 1:
+                continue
+            v = s_['vars'][0]
+            init = v.get('init')
+            if v.get('isref') or v.get('static') or not isinstance(init, dict):
+                continue
+            e = init
+            while isinstance(e, dict) and (e.get('k') == 'cast' or (e.get('k') == 'construct' and e.get('copymove') and len(e.get('args', [])) == 1)):
+                e = e.get('e') if e.get('k') == 'cast' else e['args'][0]
+            if not (isinstance(e, dict) and e.get('k') == 'cond'):
+                continue
+            c, a, b = e.get('c'), e.get('a'), e.get('b')
+            ka = const_value(_strip(a)) if isinstance(_strip(a), dict) else None
+            kb = const_value(_strip(b)) if isinstance(_strip(b), dict) else None
+            if isinstance(_strip(a), dict) and _strip(a).get('k') in ('initlist', 'valueinit') and not _strip(a).get('elts'):
+                ka = 0
+            if isinstance(_strip(b), dict) and _strip(b).get('k') in ('initlist', 'valueinit') and not _strip(b).get('elts'):
+                kb = 0
+            if kb is not None and ka is None and not is_pure(a) and is_pure(c):
+                const_arm, other, cnd = kb, a, c
+            elif ka is not None and kb is None and not is_pure(b) and is_pure(c):
+                const_arm, other = ka, b
+                cnd = {'l': c.get('l'), 't': 'bool', 'k': 'un', 'op': '!', 'e': c}
+            else:
+                continue
+            v['init'] = {'l': v.get('l'), 't': v.get('t'), 'k': 'int', 'v': const_arm}
+            ref = {'l': v.get('l'), 't': str(v.get('t', '')).replace('const ', ''), 'k': 'ref', 'name': v.get('name'), 'dk': 'local', 'dl': v.get('dl')}
+            new.append({'l': v.get('l'), 'k': 'if', 'cond': cnd, 'else': None,
+                        'then': {'k': 'block', 'l': v.get('l'),
+                                 'body': [{'l': v.get('l'), 't': ref['t'], 'k': 'assign', 'op': '=', 'lhs': ref, 'rhs': other}]}})
+            changed = True
+        blk['body'] = new
+    return changed
+
+
 def _is_zero(e):
     from .astq import const_value
     return const_value(e) == 0
@@ -1052,7 +1458,7 @@ def annotate_range_elements(f):
                 x['elem_of'] = n.get('range')
 
 
-def forwarding_lambdas_to_bind(facts):
+def forwarding_lambdas_to_bind(facts, skip_targets=()):
     """a lambda that does nothing but forward to one function (`[this](u32 n) { icu.Trigger(n); }`,
        `[&a, i](u16 v) { a.Send(i, v); }`) is the same callable as std::bind(&C::M, &obj, bound..., _1...): bring it
        into the bind form (the form the wiring / MMIO tables read) and drop the lambda's function fact.
@@ -1076,6 +1482,8 @@ def forwarding_lambdas_to_bind(facts):
             c = _strip(st.get('e')) if st.get('k') == 'return' else _strip(st)
             if not (isinstance(c, dict) and c.get('k') == 'call' and c.get('fn') and c['fn'] in F):
                 continue
+            if c['fn'] in skip_targets:
+                continue        # forwards to a helper that is inlined first (second pass after the inlining)
             callee = F[c['fn']]
             own = {p.get('name') for p in lam.get('params', []) if p.get('name')}
             caps = {cp.get('name') for cp in n.get('caps', []) if cp.get('name')}
@@ -1131,6 +1539,61 @@ def forwarding_lambdas_to_bind(facts):
             F.pop(lam_id, None)
             facts.get('func_units', {}).pop(lam_id, None)
             n_conv += 1
+    return n_conv
+
+
+def static_member_calls(facts):
+    """a static member function called from a non-static member of the same class is rendered like a member call on
+       `this` (whether a helper that uses no members is declared `static` is not behaviour)"""
+    F = facts['functions']
+    n_conv = 0
+    for fid, f in F.items():
+        if not f.get('file', '').startswith(('src/', 'include/')) or not f.get('cls') or f.get('static'):
+            continue
+        root = F.get(fid.split('::<lambda@', 1)[0], f)
+        if f.get('lambda'):
+            continue
+        for n in walk(f.get('body')):
+            if n.get('k') == 'call' and n.get('obj') is None and n.get('fn') in F:
+                g = F[n['fn']]
+                if g.get('static') and g.get('cls') == f.get('cls'):
+                    n['obj'] = {'l': n.get('l'), 't': '%s *' % f.get('cls'), 'k': 'this', 'implicit': True}
+                    n['cls'] = g.get('cls')
+                    n_conv += 1
+    return n_conv
+
+
+def split_comma_statements(facts):
+    """an expression statement `a, b, c;` (also what a comma fold `(f(xs), ...)` instantiates to) is the statements `a; b; c;`"""
+    n_conv = 0
+    for fid, f in facts['functions'].items():
+        if not f.get('file', '').startswith(('src/', 'include/')):
+            continue
+        for blk in [n for n in walk(f.get('body')) if n.get('k') == 'block']:
+            out = []
+            ch = False
+            for st in blk.get('body', []):
+                parts = []
+
+                def flat(e):
+                    e2 = e
+                    while isinstance(e2, dict) and e2.get('k') in ('cast', 'paren') and isinstance(e2.get('e'), dict) \
+                            and _strip(e2).get('k') == 'bin' and _strip(e2).get('op') == ',':
+                        e2 = e2.get('e')
+                    if isinstance(e2, dict) and e2.get('k') == 'bin' and e2.get('op') == ',':
+                        flat(e2.get('lhs'))
+                        flat(e2.get('rhs'))
+                    else:
+                        parts.append(e)
+                flat(st)
+                if len(parts) > 1:
+                    out.extend(parts)
+                    ch = True
+                    n_conv += 1
+                else:
+                    out.append(st)
+            if ch:
+                blk['body'] = out
     return n_conv
 
 
@@ -1191,8 +1654,10 @@ def normalize(facts):
     """in-place; returns a small report that goes into the evidence"""
     F = facts['functions']
     report = {'inlined_helpers': [], 'kept_helpers': [], 'alias_functions': 0}
-    report['forwarding_lambdas'] = forwarding_lambdas_to_bind(facts)
     vocab = load_vocab()
+    report['comma_statements'] = split_comma_statements(facts)
+    report['forwarding_lambdas'] = forwarding_lambdas_to_bind(
+        facts, skip_targets={fid for fid, f in F.items() if vocab is not None and candidate(f, vocab)})
     if vocab is not None:
         cands = {fid: f for fid, f in F.items() if candidate(f, vocab)}
         # recursion guard: a helper that (transitively, within the candidate set) reaches itself is left alone
@@ -1249,6 +1714,9 @@ def normalize(facts):
                     facts.get('func_units', {}).pop(fid, None)
                 else:
                     report['kept_helpers'].append(fid)
+    # helpers inlined into a lambda may have turned it into a forwarding lambda
+    report['forwarding_lambdas'] += forwarding_lambdas_to_bind(facts)
+    report['static_member_calls'] = static_member_calls(facts)
     report['while_loops'] = 0
     known = load_known_locals()
     for fid, f in F.items():
@@ -1258,14 +1726,22 @@ def normalize(facts):
                 root = fid.split('::<lambda@', 1)[0]
                 rf = F.get(root, f)
                 kl = set(known.get(vocab_key(rf.get('qname')), ()))
+            if cond_init_to_if(f):
+                report['cond_inits'] = report.get('cond_inits', 0) + 1
             if substitute_aliases(f, kl):
                 report['alias_functions'] += 1
+            if merge_nested_ifs(f):
+                report['merged_ifs'] = report.get('merged_ifs', 0) + 1
             if canonical_increments(f):
                 report['increments'] = report.get('increments', 0) + 1
+            if downcount_loops(f):
+                report['downcount_loops'] = report.get('downcount_loops', 0) + 1
             if while_to_for(f):
                 report['while_loops'] += 1
             if index_to_rangefor(f):
                 report['index_loops'] = report.get('index_loops', 0) + 1
+            if iterator_to_rangefor(f):
+                report['iterator_loops'] = report.get('iterator_loops', 0) + 1
             if canonical_atomics(f):
                 report['atomics'] = report.get('atomics', 0) + 1
             annotate_range_elements(f)
